@@ -349,6 +349,8 @@ def propStep (prop : String) : Ctx → Obs → Obs → ParsedOp → Option Strin
 
 def handleHist (prop : String) (fs : List (String × String)) : String := Id.run do
   if (get fs "err").isSome then return "PARSE create-error"
+  if let some k := get fs "nummembers" then
+    return s!"DISAGREE BAD:NumMembers()-differs-from-len(Members())-after-{k}-steps nt=1 br=count "
   let cfgS := (getD fs "cfg" "").splitOn "."
   let [al, rc, ad, am, sm] := cfgS.map (·.toNat?.getD 0) | return "PARSE cfg"
   let cfg : Cfg := { self := "S", reclaim := rc == 1, hasAliveDelegate := ad == 1, hasConflictDelegate := true,
